@@ -270,6 +270,14 @@ func mulhsu(r1, r2 expr.Expr, w expr.Width) expr.Expr {
 	return exprtools.NewWidthGadget(shifted, w)
 }
 
+// signedRem returns reminder of signed division of r1 by r2. The sign of the
+// result equals the sign of the dividend r1 and the reminder of division by
+// zero is the dividend.
+func signedRem(r1, r2 expr.Expr, w expr.Width) expr.Expr {
+	div := exprtools.SignedDiv(r1, r2, w)
+	return exprtools.Sub(r1, expr.NewBinary(expr.Mul, div, r2, w), w)
+}
+
 func sext32To64(e expr.Expr) expr.Expr { return sext(e, 31, expr.Width64) }
 
 func memLoad(addr expr.Expr, w expr.Width) expr.Expr {
